@@ -20,7 +20,7 @@ RULE = (
     "every body is held open and released one at a time only when the simulator is quiescent, so at each decision the framework has admitted "
     "as many bodies as it ever will (release order seeded, or swept systematically for small cases); also random-delay and ready-shuffle modes. "
     "Non-trivial = the limit was saturated (in_flight == k at some body entry); distinct = digest of (program shape, k, release order)."
-    ' Also: async generator nodes and interrupt handlers (both are node functions), and a SEQUENCE variant: an earlier top-level call with another limit, made from the same task, fails / returns FAILED / pauses / completes / is cancelled by a caller-side timeout (asyncio.wait_for on the virtual clock, bodies in flight) / is a map over nothing / is a rejected map, before the measured call. Survivable failures: a node function or interrupt handler raises inside items of a continuing map (runner.map or map_over node, error_handling=continue); the rest of the call must still get its permits. Exact step budget: max_iterations set to what the unlimited run needs (a concurrency limit must not change the number of supersteps).'
+    ' Also: async generator nodes and interrupt handlers (both are node functions), and a SEQUENCE variant: an earlier top-level call with another limit, made from the same task, fails / returns FAILED / pauses / completes / is cancelled by a caller-side timeout (asyncio.wait_for on the virtual clock, bodies in flight) / is a map over nothing / is a rejected map, before the measured call. Survivable failures: a node function or interrupt handler raises inside items of a continuing map (runner.map or map_over node, error_handling=continue); the rest of the call must still get its permits. Programs in which no node is an async def (every function is a plain def returning a coroutine) and nodes declared cache=True on a runner without a backend. Exact step budget: max_iterations set to what the unlimited run needs (a concurrency limit must not change the number of supersteps).'
 )
 ASSUMPTIONS = ["bodies of function nodes, interrupt handlers and routing functions of gates are the unit of 'executing'; routing functions are synchronous: they are counted while they run but cannot be held open"]
 
@@ -124,6 +124,17 @@ def gen_case(rng: random.Random, tier: str) -> dict:
             for m, _d2, _p2 in iter_nodes(g):
                 if m["kind"] == "graph" and m.get("map_over"):
                     m["error_handling"] = "continue"
+    from hgsim.spec import iter_nodes as _iter
+
+    all_wrapped = rng.random() < 0.15
+    for nd, _d, _p in _iter(g):
+        if nd["kind"] == "fn":
+            if all_wrapped and not nd.get("gen") and nd.get("async") is None:
+                nd["wrap_async"] = True  # EVERY function is a plain def that returns a coroutine: no node "is async", all of them suspend
+            if rng.random() < 0.15:
+                nd["cache"] = True  # declared cacheable, on a runner WITHOUT a cache backend
+        elif nd["kind"] == "interrupt" and all_wrapped:
+            nd["async_handler"] = "wrapped"
     return {
         "graph": g,
         "inputs": {"provide": provide, "omit": []},
